@@ -62,6 +62,39 @@ def parity_from_dm(rho, k):
     return tot
 
 
+def check_wigner(cut):
+    """Wigner function of every mode of a correlated state on a grid whose x and p axes DIFFER (range, spacing, number of
+    points): the same array on the gaussian, bosonic and fock representation, equal to the closed form of the reduced
+    Gaussian state, W[j, i] = W(xvec[i], pvec[j])"""
+    xvec = np.linspace(-2.0, 3.0, 9)
+    pvec = np.linspace(-1.5, 1.0, 6)
+    for n in (2, 3):
+        for pure in (True, False):
+            S = {"gaussian": state("gaussian", n, pure), "bosonic": state("bosonic", n, pure), "fock": state("fock", n, pure, cutoff_dim=min(cut, 12) if n == 2 else 9)}
+            mu, cov = S["gaussian"].means(), S["gaussian"].cov()
+            for m in range(n):
+                EVAL[0] += 1
+                idx = [m, m + n]
+                mu2, V2 = mu[idx], cov[np.ix_(idx, idx)]
+                Vi = np.linalg.inv(V2)
+                W0 = np.empty((len(pvec), len(xvec)))
+                for j, pp in enumerate(pvec):
+                    for i, xx in enumerate(xvec):
+                        d = np.array([xx, pp]) - mu2
+                        W0[j, i] = np.exp(-0.5 * d @ Vi @ d) / (2 * np.pi * np.sqrt(np.linalg.det(V2)))
+                for name, st in S.items():
+                    try:
+                        W = np.array(st.wigner(m, xvec, pvec))
+                    except Exception as e:
+                        bad(f"{name} n={n} pure={pure}: wigner({m}, xvec, pvec) raised {type(e).__name__}: {e}")
+                        continue
+                    tol = 6e-3 if name == "fock" else 1e-7
+                    if W.shape != W0.shape:
+                        bad(f"{name} n={n} pure={pure}: wigner({m}) on a {len(xvec)} x {len(pvec)} grid has shape {W.shape}, the other representations return {W0.shape}")
+                    elif not np.allclose(W, W0, atol=tol):
+                        bad(f"{name} n={n} pure={pure}: wigner({m}, xvec, pvec) differs from the closed form of the reduced Gaussian state by {abs(W - W0).max():.3g} (x and p axes differ)")
+
+
 def check_backend_state_subsets(cut):
     """state construction from simulator data: eng.run(prog, modes=subset in any order) returns a state whose index i is
     the i-th REQUESTED mode, consistent with the full state, on every backend (pure and mixed simulation)"""
@@ -102,6 +135,7 @@ if __name__ == "__main__":
     cut = 12 if tier == "quick" else 16
     try:
         check_backend_state_subsets(cut)
+        check_wigner(cut)
     except Exception:
         import traceback
         traceback.print_exc()
